@@ -162,7 +162,8 @@ class WalkUnit(Unit):
             mapped.append((child, drop_hidden))
             return Obj('mapped', of=child)
         g = ex.modules[FILTER]
-        g.update(hide_uri_users_and_pwds=Native(lambda ex_, s: MASK(ex_.toz(s)), 'hide_uri_users_and_pwds'))
+        g.update(hide_uri_users_and_pwds=Native(lambda ex_, s: MASK(ex_.toz(s)), 'hide_uri_users_and_pwds'),
+                 FilterConfig=Obj('FilterConfigType', isinstance=lambda ex_, v: isinstance(v, Obj) and v.cls == 'adict' and v.f.get('_kind') == 'FilterConfig'))
         O = ex.oblige
         if kind == '__init__ log line':
             # the real Filter.__init__ up to the log line: what is formatted into it is hide_config_pwds(config, True)
